@@ -44,6 +44,11 @@ Judge(r) ==
       D22shape == /\ (D22 \in sdev \/ D24 \in sdev)
                   /\ \/ r.inout = r.outout /\ OnlyExtraReads(r.inlog, r.outlog)
                      \/ r.swallow
+                     \* the prematurely evaluated argument itself throws (reading an unbound variable: ReferenceError)
+                     \* before the error of the input (TypeError) can occur: both runs throw, and nothing the input
+                     \* did is missing from the output
+                     \/ /\ r.inout.k = "throw" /\ r.outout.k = "throw"
+                        /\ IsSubseq(Strip(r.inlog), Strip(r.outlog), 1, 1)
       errDev == IF D22 \in sdev THEN D22 ELSE D24
   IN
   \* ---- C01
